@@ -302,6 +302,10 @@ impl Envelope {
                     } else {
                         return Some(Err(anyhow::anyhow!("Unexpected outer signature object type.")));
                     }
+                } else {
+                    // The metadata is only covered by the outer signature: a
+                    // wrapper without one is not a verified signature.
+                    return None;
                 }
 
                 let signature_metadata_envelope = signature_object_subject.unwrap_envelope().unwrap();
